@@ -6,6 +6,7 @@ package c17
 
 import (
 	"fmt"
+	"runtime"
 	"slices"
 	"sync"
 	"sync/atomic"
@@ -150,6 +151,85 @@ var typedProp = vp.Register(vp.Prop[TypedCase]{
 })
 
 func TestTyped(t *testing.T) { vp.Run(t, typedProp) }
+
+// PanicCase: the constructor panics for some keys (the caller recovers and
+// does not ask for such a key again: on the tree under test a second Get of
+// it would wait for ever, which the property does not speak about).  Every
+// OTHER key must still be constructed exactly once and keep its single result.
+type PanicCase struct {
+	Keys     []int `json:"keys"`      // Get sequence
+	PanicFor []int `json:"panic_for"` // keys whose construction panics
+	Goexit   bool  `json:"goexit"`    // ... or calls runtime.Goexit in a goroutine of its own
+}
+
+func checkPanic(c PanicCase) error {
+	var cons [8]atomic.Int32
+	bad := func(k int) bool { return slices.Contains(c.PanicFor, k) }
+	oc := syncutil.NewOnceConstructor(func(k int) *int32 {
+		cons[k].Add(1)
+		if bad(k) {
+			if c.Goexit {
+				runtime.Goexit()
+			}
+			panic(fmt.Sprintf("constructor of key %d panicked", k))
+		}
+		v := int32(k)
+		return &v
+	})
+	first := map[int]*int32{}
+	asked := map[int]bool{}
+	afterPanic := false
+	for i, k := range c.Keys {
+		k = ((k % 8) + 8) % 8
+		if bad(k) {
+			if asked[k] {
+				continue
+			}
+			asked[k] = true
+			done := make(chan struct{})
+			go func() {
+				defer close(done)
+				defer func() { _ = recover() }()
+				oc.Get(k)
+			}()
+			<-done
+			afterPanic = true
+			continue
+		}
+		got := oc.Get(k)
+		if prev, ok := first[k]; ok && prev != got {
+			return fmt.Errorf("Get #%d: key %d returned a different result than its earlier Get (constructor calls for it: %d) after the constructor of another key had panicked", i, k, cons[k].Load())
+		}
+		first[k] = got
+		if n := cons[k].Load(); n != 1 {
+			return fmt.Errorf("Get #%d: the constructor of key %d has run %d times (keys %v panic)", i, k, n, c.PanicFor)
+		}
+		if afterPanic && asked[-1-k] {
+			vp.Class("panic:healthy-key-requested-again-after-another-key-panicked")
+		}
+		asked[-1-k] = true
+	}
+	vp.Class("panic")
+	if afterPanic {
+		vp.NonTrivialStr("c17.panic", fmt.Sprint(c))
+		vp.Sample("panic", c)
+	}
+	return nil
+}
+
+var panicProp = vp.Register(vp.Prop[PanicCase]{
+	Kind: "c17.panic", Base: 3000,
+	Gen: func(t *rapid.T) PanicCase {
+		return PanicCase{
+			Keys:     rapid.SliceOfN(rapid.IntRange(0, 5), 2, 14).Draw(t, "keys"),
+			PanicFor: rapid.SliceOfN(rapid.IntRange(0, 5), 1, 2).Draw(t, "panicfor"),
+			Goexit:   rapid.IntRange(0, 3).Draw(t, "goexit") == 0,
+		}
+	},
+	Check: checkPanic,
+})
+
+func TestPanic(t *testing.T) { vp.Run(t, panicProp) }
 
 // HotKeyCase: very many Get calls for ONE key of ONE OnceConstructor (a hot
 // key in a long-running server, e.g. a per-name logger fetched on every
